@@ -14,7 +14,7 @@ Fixpoint str_of (l : list N) : string :=
 (* scheme: 0 = ecdsa, 1 = eddsa *)
 Inductive acase :=
 | KCls (scheme : N) (any_ok : bool) (url : list N) (err : bool) (round : N) (bcast : bool)
-| KOn (scheme : N) (parsed : bool) (from : N) (enq : bool) (attr : N)
+| KOn (scheme : N) (parsed : bool) (ids : list N) (from : N) (enq : bool) (attr : N) (slot : N)   (* slot = Go index + 1 *)
 | KSignEd (d : bytes) (ok ver_d ver_strip : bool)
 | KHash (d : bytes) (v : N).
 
@@ -31,9 +31,9 @@ Definition check (c : acase) : bool :=
       | ClsErr => err && (round =? 0) && negb bcast
       | ClsOk r b => negb err && (r =? round) && Bool.eqb b bcast
       end
-  | KOn sc parsed from enq attr =>
-      match on_msg_wire (onmsg_of sc) parsed from with
-      | Some k => enq && (k =? attr)
+  | KOn sc parsed ids from enq attr slot =>
+      match on_msg_slot (onmsg_of sc) parsed ids from with
+      | Some (k, sl) => enq && (k =? attr) && (slot_code sl =? slot)
       | None => negb enq
       end
   | KSignEd d ok ver_d ver_strip =>
